@@ -414,7 +414,33 @@ def r12_5(ctx: Ctx) -> None:
         raise AnalysisError(f"region writer: expected at least 6 qualifier stores, found {sites}")
 
 
+def r12_6(ctx: Ctx) -> None:
+    """ the annotations of the region file are a private copy wherever they are written: the parent record's annotation
+        dictionaries (the structured comment in particular) are never written through """
+    from ..ownership import NAMES, SHARED, Ownership
+    qual = "_build_annotations"
+    func = ctx.fn(HELP, qual)
+    own = Ownership(func)
+    writes = own.writes()
+    if not writes:
+        raise AnalysisError(f"{qual}: no write into the annotations found")
+    for index, (site, container, kind) in enumerate(writes):
+        stmt = own._stmt(site)
+        level = own.level(container, stmt)
+        ctx.ob("R12.6", HELP, site, qual, f"write#{index} {kind}", level != SHARED,
+               "every dictionary the region's annotations are written into is a copy private to the region file (the full "
+               "record's annotations, which are written out afterwards, do not change)",
+               detail="" if level != SHARED else f"`{txt(container)}` is {NAMES[level]}: the write shows in the full record's annotations",
+               form=f"{txt(container)}: {NAMES[level]}")
+    rets = [r for r in walk_local(func) if isinstance(r, ast.Return) and r.value is not None]
+    ok = bool(rets) and all(own.level(r.value, r) != SHARED for r in rets)
+    ctx.ob("R12.6", HELP, rets[0] if rets else func, qual, "returned annotations are the copy", ok,
+           "the annotations handed to the region record are the private copy, not the parent's dictionary", form="")
+
+
 def run(ctx: Ctx) -> None:
+    ctx.rule("R12.6", "annotation dictionaries are written only where they are private copies", floor=4)
+    r12_6(ctx)
     ctx.rule("R12.1", "writer/adjuster agreement on run-specific cross-reference qualifiers", floor=14)
     ctx.rule("R12.2", "snapshot/restore of locations; no aliasing of parent features", floor=4)
     ctx.rule("R12.3", "renumbering n - first + 1 per family; wrapping location shifts", floor=12)
